@@ -32,6 +32,8 @@ type Config struct {
 	FailCommitH uint64   `json:"fail_commit_h,omitempty"` // ... at this height (the consumer failed to persist the block)
 	AcceptAllAt []int    `json:"accept_all_at,omitempty"` // nodes whose consumer validator approves everything, even a missing block (C12)
 	RejectAt    []int    `json:"reject_at,omitempty"`     // nodes whose validator additionally rejects blocks with an id ending in "!r"
+	Absent      []int    `json:"absent,omitempty"`        // identities that are NOT in the committee ...
+	AbsentH     uint64   `json:"absent_h,omitempty"`      // ... of this height (membership changes between heights; a correct absent node only moves on by sync)
 }
 
 type Commit struct {
@@ -171,20 +173,37 @@ func OutsiderName(i int) primitives.MemberId {
 	return primitives.MemberId(fmt.Sprintf("member-address-x%d-zz", i))
 }
 
-// Committee of a height: the configured order rotated by Rot*(h-1).
-func (w *World) Committee(h primitives.BlockHeight) []interfaces.CommitteeMember {
-	n := w.Cfg.N
-	out := make([]interfaces.CommitteeMember, n)
+// Members lists the identity indices of the committee of height h in leader order: the configured order rotated by Rot*(h-1),
+// without the identities that are absent at that height.
+func (c *Config) Members(h uint64) []int {
+	n := c.N
+	out := make([]int, 0, n)
 	shift := 0
 	if h > 0 {
-		shift = int((uint64(h) - 1) * uint64(w.Cfg.Rot) % uint64(n))
+		shift = int((h - 1) * uint64(c.Rot) % uint64(n))
 	}
 	for i := 0; i < n; i++ {
-		idx := w.Cfg.Order[(i+shift)%n]
+		idx := c.Order[(i+shift)%n]
+		if h != 0 && h == c.AbsentH && isIn(c.Absent, idx) {
+			continue
+		}
+		out = append(out, idx)
+	}
+	return out
+}
+
+// Committee of a height (see Config.Members).
+func (w *World) Committee(h primitives.BlockHeight) []interfaces.CommitteeMember {
+	ms := w.Cfg.Members(uint64(h))
+	out := make([]interfaces.CommitteeMember, len(ms))
+	for i, idx := range ms {
 		out[i] = interfaces.CommitteeMember{Id: w.IDs[idx], Weight: primitives.MemberWeight(w.Cfg.WeightAt(idx, uint64(h)))}
 	}
 	return out
 }
+
+// InCommittee: identity idx is a member of the committee of height h.
+func (w *World) InCommittee(idx int, h uint64) bool { return isIn(w.Cfg.Members(h), idx) }
 
 func (w *World) IdxOf(id primitives.MemberId) int {
 	for i, x := range w.IDs {
@@ -216,15 +235,15 @@ func (c *Config) WeightAt(idx int, h uint64) uint64 {
 // ByzWeightOK checks the generator invariant of the properties' precondition: Byzantine weight <= f, at every height that can be reached.
 func (c *Config) ByzWeightOK() bool {
 	for h := uint64(1); h <= c.MaxHeight+1; h++ {
-		com := make([]interfaces.CommitteeMember, c.N)
+		var com []interfaces.CommitteeMember
 		var ids []primitives.MemberId
-		for i := 0; i < c.N; i++ {
-			com[i] = interfaces.CommitteeMember{Id: MemberName(i), Weight: primitives.MemberWeight(c.WeightAt(i, h))}
+		for _, i := range c.Members(h) {
+			com = append(com, interfaces.CommitteeMember{Id: MemberName(i), Weight: primitives.MemberWeight(c.WeightAt(i, h))})
 			if isIn(c.Byz, i) {
 				ids = append(ids, MemberName(i))
 			}
 		}
-		if ref.Weight(ids, com).Cmp(ref.F(com)) > 0 {
+		if len(com) < 4 || ref.Weight(ids, com).Cmp(ref.F(com)) > 0 {
 			return false
 		}
 	}
